@@ -334,7 +334,12 @@ impl Chip126x {
             }
             // SetDio2AsRfSwitch, Calibrate, CalibrateImage, StopTimerOnPreamble, SymbNumTimeout,
             // CadParams, ClearDeviceErrors, GetDeviceErrors, SetRxTxFallbackMode, stats
-            0x9D | 0x89 | 0x98 | 0x9F | 0xA0 | 0x88 | 0x07 | 0x17 | 0x93 | 0x10 | 0x00 | 0x11 => {}
+            0x98 => {
+                // CalibrateImage: the image calibration of the operating band is lost with the rest
+                // of the configuration (POR/NRESET/cold start calibrate for the default band only)
+                self.programmed.insert("image-calibration");
+            }
+            0x9D | 0x89 | 0x9F | 0xA0 | 0x88 | 0x07 | 0x17 | 0x93 | 0x10 | 0x00 | 0x11 => {}
             other => {
                 self.viols.push(Viol { rule: "model", fp: format!("harness/sx126x/unknown-opcode-{other:02x}"), detail: format!("opcode {other:#04x} is not in the datasheet command table") });
             }
